@@ -54,6 +54,17 @@ macro_rules! invalid_argument_type {
   }};
 }
 
+/// Returns the number as a value when it is finite, and null when the decimal arithmetic
+/// signalled overflow or an invalid operation by returning an infinity or a NaN.
+pub fn finite_number(number: FeelNumber) -> Value {
+  // a number minus itself is zero exactly when the number is finite (it is NaN for infinities and NaNs)
+  if number - number == FeelNumber::zero() {
+    Value::Number(number)
+  } else {
+    value_null!("result is not a finite number")
+  }
+}
+
 /// Returns the absolute value of the argument.
 pub fn abs(value: &Value) -> Value {
   if let Value::Number(v) = value {
@@ -294,7 +305,7 @@ pub fn decimal(number_value: &Value, scale_value: &Value) -> Value {
     if let Value::Number(scale) = scale_value {
       let scale = &scale.trunc();
       if (-6111..6176).contains(scale) {
-        Value::Number((*number).round(scale))
+        finite_number((*number).round(scale))
       } else {
         value_null!("[core::decimal] scale is out of range: {}", scale)
       }
@@ -361,7 +372,7 @@ pub fn even(number_value: &Value) -> Value {
 /// Returns the Euler’s number e raised to the power of **value** given as a parameter.
 pub fn exp(value: &Value) -> Value {
   if let Value::Number(num) = value {
-    return Value::Number(num.exp());
+    return finite_number(num.exp());
   }
   value_null!("exp")
 }
@@ -579,7 +590,7 @@ pub fn mean(values: &[Value]) -> Value {
       return invalid_argument_type!("mean", "number", value.type_of());
     }
   }
-  Value::Number(sum / values.len().into())
+  finite_number(sum / values.len().into())
 }
 
 /// Returns the median of numbers.
@@ -598,7 +609,7 @@ pub fn median(values: &[Value]) -> Value {
   list.sort_by(|x, y| x.partial_cmp(y).unwrap_or(std::cmp::Ordering::Equal));
   let index = values.len() / 2;
   if list.len() % 2 == 0 {
-    Value::Number((list[index - 1] + list[index]) / FeelNumber::two())
+    finite_number((list[index - 1] + list[index]) / FeelNumber::two())
   } else {
     Value::Number(list[index])
   }
@@ -693,7 +704,7 @@ pub fn modulo(dividend_value: &Value, divisor_value: &Value) -> Value {
       if divisor.abs() == FeelNumber::zero() {
         value_null!("[core::modulo] division by zero")
       } else {
-        Value::Number(dividend - divisor * (dividend / divisor).floor())
+        finite_number(dividend - divisor * (dividend / divisor).floor())
       }
     } else {
       invalid_argument_type!("modulo", "number", divisor_value.type_of())
@@ -1013,7 +1024,7 @@ pub fn sum(values: &[Value]) -> Value {
         return invalid_argument_type!("sum", "number", value.type_of());
       }
     }
-    Value::Number(sum)
+    finite_number(sum)
   } else {
     invalid_argument_type!("sum", "number", values[0].type_of())
   }
